@@ -240,7 +240,10 @@ func ZZC14Gen() {
 	gp := zz2GenProg(cfg)
 	src := gp.render()
 	p := &zzPlat{}
-	y := &zzYielder{stopAt: zzInt("k", 1, K), plat: p}
+	y := &zzYielder{stopAt: -1, plat: p}
+	if zzChoice("never", 2) == 0 {
+		y.stopAt = zzInt("k", 1, K)
+	}
 	p.yielder = y
 	ev := NewEvaluator(p)
 	y.ev = ev
